@@ -98,7 +98,10 @@ func (p DictPattern) Bind(ctx context.Context, local Scope, value Value) (contex
 					return ctx, EmptyScope, err
 				}
 			} else {
-				dictValue = dictExpr.(Value)
+				var single bool
+				if dictValue, single = dictExpr.(Value); !single {
+					return ctx, EmptyScope, fmt.Errorf("dict %s has several values for %s", dict, key)
+				}
 				m = m.Without(key.(Value))
 			}
 		}
